@@ -1,5 +1,21 @@
 import Driver.Util
 import Driver.SuiteFraming
+import Driver.SuiteRangeCoder
+import Driver.SuiteRepack
+import Driver.SuiteExt
+import Driver.SuiteCwrs
+import Driver.SuiteLaplace
+import Driver.SuiteSilkParams
+import Driver.SuiteSilkSyms
+import Driver.SuiteCtl
+import Driver.SuiteDtx
+import Driver.SuiteLayout
+import Driver.SuitePcm
+import Driver.SuiteKernels
+import Driver.SuiteSoftClip
+import Driver.SuiteDecSkel
+import Driver.SuiteEncSkel
+import Driver.SuiteMisc
 /-
   `opusmodel check` reads the combined stream written by a C harness:
      I <suite> <op> <args…>      an operation and its arguments
@@ -14,6 +30,22 @@ open Driver
 def dispatch (line : String) : String :=
   match line.trimAscii.toString.splitOn " " with
   | "framing" :: args => SuiteFraming.handle args
+  | "rangecoder" :: args => SuiteRangeCoder.handle args
+  | "repack" :: args => SuiteRepack.handle args
+  | "ext" :: args => SuiteExt.handle args
+  | "cwrs" :: args => SuiteCwrs.handle args
+  | "laplace" :: args => SuiteLaplace.handle args
+  | "silkparams" :: args => SuiteSilkParams.handle args
+  | "silksyms" :: args => SuiteSilkSyms.handle args
+  | "ctl" :: args => SuiteCtl.handle args
+  | "dtx" :: args => SuiteDtx.handle args
+  | "layout" :: args => SuiteLayout.handle args
+  | "pcm" :: args => SuitePcm.handle args
+  | "kernels" :: args => SuiteKernels.handle args
+  | "softclip" :: args => SuiteSoftClip.handle args
+  | "decskel" :: args => SuiteDecSkel.handle args
+  | "encskel" :: args => SuiteEncSkel.handle args
+  | "misc" :: args => SuiteMisc.handle args
   | _ => "bad-suite"
 
 structure Stats where
